@@ -243,6 +243,32 @@ theorem iterators_at_documented_source (s y : Bool) :
     isSend structs (.adt Id.TensorIterator [.leaf s y, .adt Id.Tensor [.leaf s y]]) = some (s && y) := by
   cases s <;> cases y <;> decide
 
+/-! ### the lifetime probes cover every lifetime-carrying type of the table
+
+Lifetimes are outside this model (the probe programs decide them).  What can be stated — and is
+re-checked against the regenerated table — is the completeness of the probe catalogue: every public
+struct / enum that carries a lifetime (a non-`'static` borrow somewhere inside it, `structCarriesLifetime`)
+is one of the types the lifetime probes are written for, so a new lifetime-carrying type cannot be
+silently unprobed. -/
+
+theorem lifetime_structs_all_probed :
+    ∀ id ∈ publicIds, structCarriesLifetime structs id = true →
+      id ∈ lifetimeProbedDirectly ++ lifetimeProbedByFamily := by
+  decide +kernel
+
+/-- … and conversely the catalogue lists nothing that does not carry a lifetime; the only other
+    lifetime-carrying structs of the table are the two private helpers -/
+theorem lifetime_probe_lists_exact :
+    (∀ id ∈ lifetimeProbedDirectly ++ lifetimeProbedByFamily, structCarriesLifetime structs id = true) ∧
+    (List.range structs.length).filter (fun id => structCarriesLifetime structs id && !publicIds.contains id)
+      = [Id.BorrowedWengertList, Id.RecordContainerComponents] := by
+  decide +kernel
+
+-- non-vacuity: owning containers and adaptors over a type parameter carry no lifetime of their own
+example : structCarriesLifetime structs Id.Tensor = false ∧ structCarriesLifetime structs Id.TensorView = false ∧
+    structCarriesLifetime structs Id.InvalidShapeError = false ∧ structCarriesLifetime structs Id.MatrixQuadrants = true := by
+  decide +kernel
+
 /-! ### the table is covered -/
 
 /-- every public struct / enum of the regenerated table is classified by one of the theorems
